@@ -81,6 +81,11 @@ class RetryMonitor(Monitor):
                 w.probe("C04.eof_acked")
                 self.eof = None
                 return
+            if rec.inb_kind == "FIN" and rec.exc is None:
+                # a Finished PDU proves that the EOF arrived: the exchange is over (progress)
+                w.probe("C04.eof_acked_by_finished")
+                self.eof = None
+                return
         if rec.op == "cancel" and rec.ret is True:
             # user cancel while waiting for the EOF ACK: a new EOF (cancel) exchange starts, or, if
             # the exchange was already a cancel exchange, the transaction is abandoned
